@@ -766,6 +766,7 @@ def c12_inrun(rec, st, kappa_max=1e6):
     stmt = rec.stmt
     kappa = 1.0
     S = 1.0
+    twin_broken = False
     evals, _ = eval_table(rec)
     info = ps.pbinfo
     for op in ps.model_ops:
@@ -779,8 +780,11 @@ def c12_inrun(rec, st, kappa_max=1e6):
         S = max([S] + mags + [abs(op.get("pred_fun", 0.0))])
         errs = [("objective", op["e_fun"])] + [("cub%d" % i, v) for i, v in enumerate(op["e_cub"])] + \
                [("ceq%d" % i, v) for i, v in enumerate(op["e_ceq"])]
-        if kappa <= kappa_max and math.isfinite(S):
-            bound = 1e4 * EPS * kappa * op["npt"] * S
+        if kappa <= kappa_max and math.isfinite(S) and op.get("set_scale", 0.0) > 0.0:
+            # the check evaluates the models at base + offset: the offsets are only known to
+            # eps*|x|, which matters when the set is tiny compared with the coordinates
+            resolve = 1.0 + op["abs_max"] / op["set_scale"]
+            bound = 1e4 * EPS * kappa * op["npt"] * S * resolve
             st["c12.a_checked"] += 1
             for name, v in errs:
                 if not (v <= bound):
@@ -792,7 +796,11 @@ def c12_inrun(rec, st, kappa_max=1e6):
             st["c12.a_skipped_illposed"] += 1
         # b: twin consistency
         tw = stmt.get("twin")
-        if tw:
+        if tw and not op.get("same_data"):
+            twin_broken = True
+        if tw and twin_broken:
+            st["c12.b_skipped_data_differ"] += 1
+        elif tw:
             E = op["e_fun"]
             scale = max(1.0, op["mag_fun"])
             for name, v in errs[1:]:
